@@ -1,4 +1,4 @@
-from ._util import tjobs
+from ._util import tjobs, window
 from ..spec.templates import WITH_LETS
 
 H = "vf.harness.passes"
@@ -15,19 +15,27 @@ META = {
 def jobs(tier):
     q = tier == "quick"
     out = []
-    olo, ohi = (-1, 3) if q else (-2, 5)
+    olo, ohi = (0, 2) if q else (-2, 5)
+    # which leaves keep their full range in the quick tier (the ones that interact with the overridden constants)
+    WIDE = {"t_index": ["n", "i"], "t_slice_let": ["a", "b"], "t_regsize_let": ["n", "i"], "t_loop_sub": ["k", "c"], "t_shadow": ["v", "i"],
+            "t_alias_macro": ["a", "i"], "t_macro_sub": ["c", "k"], "t_let_arg": ["v"], "t_float": ["i"]}
     for t in WITH_LETS:
+        shrink = window(t, tier, 1, WIDE.get(t, ())) if q else None
         for mask in ((0, 1, 3) if q else (0, 1, 2, 3, 5, 7)):
-            ep = [("o0", "int"), ("o1", "int")] if mask else []
-            pre = [f"{olo} <= o0 <= {ohi}", f"{olo} <= o1 <= {ohi}"] if mask else []
-            fx = {"pulses": True, "mask": mask, "fo": -1}
+            ep = [("o0", "int")] if mask else []
+            pre = [f"{olo} <= o0 <= {ohi}"] if mask else []
+            fx = {"pulses": True, "mask": mask, "fo": -1, "o1": 1}
             if not mask:
-                fx.update({"o0": 0, "o1": 0})
-            out.extend(tjobs(f"{H}:c05_letfill", t, tier, fixed=fx, extra_params=ep, extra_pre=pre, functions=FUNCS, timeout=200,
+                fx["o0"] = 0
+            if not q and mask:
+                ep.append(("o1", "int"))
+                pre.append(f"{olo} <= o1 <= {ohi}")
+                fx.pop("o1")
+            out.extend(tjobs(f"{H}:c05_letfill", t, tier, fixed=fx, extra_params=ep, extra_pre=pre, functions=FUNCS, timeout=400 if q else 2400, shrink=shrink,
                              note=f"{t}: fill_in_let with overrides on constant subset mask={mask}; oracle: no Constant left in any position, "
                                   "impl_meaning(out, {}) == ref_meaning(program, overrides), declarations/macros/native gates/usepulses preserved"))
         # float override of the first constant
         for fo in ((0, 2) if q else (0, 1, 2, 3, 4, 5)):
-            out.extend(tjobs(f"{H}:c05_letfill", t, tier, fixed={"pulses": False, "mask": 1, "fo": fo, "o0": 0, "o1": 0}, functions=FUNCS, timeout=200,
-                             note=f"{t}: first constant overridden by float grid value #{fo}"))
+            out.extend(tjobs(f"{H}:c05_letfill", t, tier, fixed={"pulses": False, "mask": 1, "fo": fo, "o0": 0, "o1": 0}, functions=FUNCS, timeout=400 if q else 2400,
+                             shrink=window(t, tier, 1) if q else None, note=f"{t}: first constant overridden by float grid value #{fo}"))
     return out
